@@ -6,6 +6,7 @@ import (
 	"errors"
 	"fmt"
 	"strconv"
+	"strings"
 	"testing"
 
 	"go.lstv.dev/util/date"
@@ -402,6 +403,44 @@ func TestCheck(t *testing.T) {
 					judge(Case{Text: vkit.B(y), Rule: rule, Limit: 10}, w)
 				}
 				w.EvalRandom(vkit.Hash64("W3", x), true)
+			}
+		})
+	})
+
+	// Phase F: what the parser accepts does not depend on how dates are printed: a custom package-level Formatter is installed.
+	r.Phase("F: texts judged while a custom package-level Formatter (day.month.year) is installed", func() {
+		old := date.Formatter
+		defer func() { date.Formatter = old }()
+		date.Formatter = func(buf []byte, d date.Date, f date.Format) ([]byte, error) {
+			return append(buf, fmt.Sprintf("%02d.%02d.%d", d.Day(), int(d.Month()), d.Year())...), nil
+		}
+		defer setLimit(10)()
+		r.Serial(func(w *vkit.W) {
+			for _, text := range []string{"2002-08-07", "20020807", "2024-02-29", "2023-02-29", "0000-01-01", "9999-12-31", "2002-8-7", "07.08.2002", "2002-08-07x", "", "00000000", "2002-13-01", "1999-12-31"} {
+				for _, rule := range rules {
+					judge(Case{Text: vkit.B(text), Rule: rule, Limit: 10}, w)
+					w.EvalRandom(vkit.Hash64("F", text, strconv.Itoa(rule)), true)
+				}
+			}
+		})
+	})
+
+	// Phase L: lengths that alias a valid length modulo 2^8 or 2^16: a valid text followed (or preceded) by k x 256 more bytes.
+	r.Phase("L: valid texts followed or preceded by 1..2^20 further bytes (255, 256, 257, ..., 65536, ...), limit disabled", func() {
+		defer setLimit(0)()
+		r.Parallel(int64(len([]int{1, 255, 256, 257, 511, 512, 513, 65535, 65536, 65537, 1 << 20})), 1, func(w *vkit.W, lo, hi int64) {
+			for i := lo; i < hi; i++ {
+				n := []int{1, 255, 256, 257, 511, 512, 513, 65535, 65536, 65537, 1 << 20}[i]
+				for _, base := range []string{"2024-02-29", "20240229", "12345-01-01"} {
+					for _, pad := range []string{"0", "-", " ", "\x00", "9"} {
+						for _, text := range []string{base + strings.Repeat(pad, n), strings.Repeat(pad, n) + base} {
+							for _, rule := range rules {
+								judge(Case{Text: vkit.B(text), Rule: rule, Limit: 0}, w)
+								w.EvalRandom(vkit.Hash64("L", base, pad, strconv.Itoa(n), strconv.Itoa(rule)), true)
+							}
+						}
+					}
+				}
 			}
 		})
 	})
